@@ -508,6 +508,9 @@ func ssConfigs() []ssCfg {
 			cp.MaxSize = 64
 			cp.MaxConcurrentStreamsLowWatermark = 1
 			cp.BindPickStrategy = pb.ChannelPoolConfig_ROUND_ROBIN
+			// refreshes too: SHUTDOWN reports for replaced connections arrive while the pool grows
+			cp.UnresponsiveCalls = 1
+			cp.UnresponsiveDetectionMs = 1
 		}),
 		func() ssCfg {
 			// almost every call ends with a client-side deadline: many concurrent
@@ -626,11 +629,14 @@ func ssDispatch(out *vOut, env vEnv, cfgs []ssCfg, rng *vRand, idx int64) {
 	case "C20":
 		ssUpdateDuringRefreshCreate(out, rng, idx)
 	case "C03":
-		switch idx % 3 {
+		switch idx % 4 {
 		case 0:
 			ssToctouGrow(out, rng, idx)
 		case 1:
 			ssSlowFactoryGrow(out, rng, idx)
+		case 2:
+			// "a refresh may hold one extra connection per refreshing channel"
+			ssOneReplacementAs(out, rng, idx, "C03", "C03.stress-refresh-extra")
 		default:
 			ssQuiescent(out, env, cfgs[5], rng, idx)
 		}
@@ -1023,6 +1029,10 @@ func ssBalancedFill(out *vOut, rng *vRand, idx int64) {
 // error at the same time, on different goroutines, after the window has passed:
 // exactly one replacement connection may be created for the channel.
 func ssOneReplacement(out *vOut, rng *vRand, idx int64) {
+	ssOneReplacementAs(out, rng, idx, "C07", "C07.stress-one-replacement")
+}
+
+func ssOneReplacementAs(out *vOut, rng *vRand, idx int64, prop string, rule string) {
 	n := 1 + rng.Intn(3)
 	k := 2 + rng.Intn(10)
 	cp := &pb.ChannelPoolConfig{MinSize: uint32(n), MaxSize: uint32(n), MaxConcurrentStreamsLowWatermark: 1000, UnresponsiveCalls: uint32(1 + rng.Intn(2)), UnresponsiveDetectionMs: 1}
@@ -1090,13 +1100,13 @@ func ssOneReplacement(out *vOut, rng *vRand, idx int64) {
 	b.mu.RLock()
 	pending := len(b.refreshingScRefs)
 	b.mu.RUnlock()
-	out.hit("C07.stress-one-replacement")
-	out.hitN("C07.stress-concurrent-timeouts", int64(len(calls)))
+	out.hit(rule)
+	out.hitN(prop+".stress-concurrent-timeouts", int64(len(calls)))
 	log := []string{fmt.Sprintf("one-replacement channels=%d: %d calls per channel ended with the client-side deadline error concurrently, >=20ms after the last response (window 1ms): %d NewSubConn calls, %d replacements pending", n, k, created, pending)}
 	out.nontrivial(vHashStrings([]string{"one-repl", fmt.Sprint(n, k, cp.UnresponsiveCalls)}))
 	out.sample(map[string]interface{}{"case": idx, "summary": log[0]})
 	if created != int64(n) || pending != n {
-		out.violation(vViol{Sig: "C07.stress-one-replacement", Rule: "C07.stress-one-replacement", Detail: fmt.Sprintf("%d channels each had %d calls time out concurrently after the window: %d replacement connections created, %d pending; exactly one per channel is allowed", n, k, created, pending), Case: idx, Log: log})
+		out.violation(vViol{Sig: rule, Rule: rule, Detail: fmt.Sprintf("%d channels each had %d calls time out concurrently after the window: %d replacement connections created, %d pending; exactly one per channel is allowed", n, k, created, pending), Case: idx, Log: log})
 	}
 }
 
